@@ -858,7 +858,7 @@ def run(ctx):
                 b"{'a':1}", b'{"a":1,}', b"{a:1}", b"\x00", b"not json", b'{"a":1} x', b"\xc3\x28", b'{"a":01}', b'{"a":+1}',
                 b'{"a":"\x01"}', b'{"a":"\\x"}', b"{,}", b'{"a" 1}', b"{" * 30, b"[" * deep, b'{"a":' * deep, b"\xf0\x9f\x98",
                 b"\xff", b'["a",', b"tru", b"nul", b".5", b"1.", b'{"a":1}\x00']
-    for _ in range(ctx.scale(40, 1500)):
+    for _ in range(ctx.scale(40, 400)):
         NON_JSON.append(bytes(rng.randrange(256) for _ in range(rng.randrange(1, 24))))
         v = gen_value(rng, 2, 4)
         if not isinstance(v, dict):
@@ -980,7 +980,9 @@ def run(ctx):
         key = W.keys[tr_[3]][0]
         tok, reg = build(tr_, b'{"sub":"alice","admin":false}', key)
         bad_tokens.append((tr_, tok, b'{"sub":"alice","admin":false}', reg))
-    sel = bad_tokens if not ctx.quick else [bt for i, bt in enumerate(bad_tokens) if i % 3 == 0 or i >= len(bad_tokens) - len(neg_transports)]
+    sel = [bt for i, bt in enumerate(bad_tokens) if i % 3 == 0 or i >= len(bad_tokens) - len(neg_transports)]
+    if len(sel) > 3000:
+        sel = rng.sample(sel[:-len(neg_transports)], 3000) + sel[-len(neg_transports):]
     for tr_, tok, payload, reg in sel:
         tname, kind, base, fam, added = tr_
         key = W.keys[fam][0]
